@@ -237,6 +237,34 @@ def rect_functions(repo, outdir):
     write(os.path.join(outdir, "RectGen.lean"), "\n".join(out))
     return len(RECT_FNS)
 
+def interp_functions(repo, outdir):
+    """Gen/InterpGen.lean: `Point::dot` (geo-types) and `Line::line_locate_point` (finite input) from source."""
+    import rsexpr
+    out = ["/- generated by translator/rs2lean.py (rsexpr); do not edit -/",
+           "import GeoModel.Interp", "", "namespace Geo.Gen", "open Geo", ""]
+    jobs = [
+        ("geo-types/src/geometry/point.rs", r"pub fn dot\(self, other: Self\) -> T \{", "pointDot", "(self_ other : Pt)", "Rat",
+         {}, [("self", "self_")], []),
+        # `l.is_finite()` is true of every rational: the model covers finite input (the harness sends nothing else here)
+        ("geo/src/algorithm/line_locate_point.rs",
+         r"for Line<T>\s+where\s+T: CoordFloat,\s*\{.*?fn line_locate_point\(&self, p: &Self::Rhs\) -> Self::Output \{",
+         "lineLocatePoint", "(s e p : Pt)", "Option Rat",
+         {".dot": "pointDot", "Some": "some", ".max": "rmax", ".min": "rmin"},
+         [("self.start_point", "s"), ("self.end", "e"), ("self.start", "s")],
+         [(r"\b([a-z_]+)\.is_finite\b", "true"), (r"\)\.into\b", ")")]),
+    ]
+    for (rel, hdr, name, params, ret, funcs, subst, resub) in jobs:
+        src = strip_comments(open(os.path.join(repo, rel)).read())
+        try:
+            term = rsexpr.translate(src, hdr, {"T::one": "1", "T::zero": "0", "None": "none"}, funcs, subst, resub=resub)
+        except rsexpr.TranslateError as e:
+            die("%s (%s): %s" % (name, rel, e))
+        out.append("/-- `%s` — %s -/" % (name, rel))
+        out.append("def %s %s : %s :=\n  %s\n" % (name, params, ret, term))
+    out += ["end Geo.Gen", ""]
+    write(os.path.join(outdir, "InterpGen.lean"), "\n".join(out))
+    return len(jobs)
+
 ENDPT = {"p.start": "p1", "p.end": "p2", "q.start": "q1", "q.end": "q2"}
 
 def collinear_table(repo, outdir):
@@ -337,7 +365,8 @@ def main():
     nk = kernel_functions(repo, outdir)
     na = affine_functions(repo, outdir)
     nr = rect_functions(repo, outdir)
-    print("rs2lean: wrote Masks.lean (%d predicates), Enums.lean (%d op rules), CollinearTable.lean (%d rows), Kernel.lean (%d functions), AffineGen.lean (%d functions), RectGen.lean (%d functions)" % (len(fns), len(pairs), rows, nk, na, nr))
+    ni = interp_functions(repo, outdir)
+    print("rs2lean: wrote Masks.lean (%d predicates), Enums.lean (%d op rules), CollinearTable.lean (%d rows), Kernel.lean (%d functions), AffineGen.lean (%d functions), RectGen.lean (%d functions), InterpGen.lean (%d functions)" % (len(fns), len(pairs), rows, nk, na, nr, ni))
 
 if __name__ == "__main__":
     main()
